@@ -36,14 +36,25 @@ fn c17_timed_message_order() {
     conditioner.insert(None, instant_after(base, 1 << 20), kani::any(), Bytes::new());
     let v = conditioner.heap.into_vec();
     assert!(v.len() == 3);
-    let (a, b, c) = (&v[0], &v[1], &v[2]);
+    // Every ordering of the three messages (the heap's backing vector has one particular order).
+    let perm: u8 = kani::any();
+    kani::assume(perm < 6);
+    let (i, j, k) = match perm {
+        0 => (0, 1, 2),
+        1 => (0, 2, 1),
+        2 => (1, 0, 2),
+        3 => (1, 2, 0),
+        4 => (2, 0, 1),
+        _ => (2, 1, 0),
+    };
+    let (a, b, c) = (&v[i], &v[j], &v[k]);
     assert!(a.cmp(b) == b.cmp(a).reverse());
     assert!(a.partial_cmp(b) == Some(a.cmp(b)));
     // Earlier messages have higher priority in the max-heap.
     if a.timestamp < b.timestamp {
         assert!(a > b);
     }
-    // Transitivity.
+    // Transitivity (a heap needs a total preorder to deliver in priority order).
     if a >= b && b >= c {
         assert!(a >= c);
     }
